@@ -100,3 +100,55 @@ site('MatlabWrapper.wrap_static_methods',
                  set={'siteRole': "('string_deserialize', instantiated_class, 'deserialize', namespace_name + instantiated_class.name + '_string_deserialize', False)"}),
             dict(match=r'varargout\{\{1\}\} = \{wrapper\}\(\{id\}, varargin', key='id', count='siteCount',
                  set={'siteRole': "(static_overload.name, instantiated_class, static_overload, namespace_name + instantiated_class.name + '_' + static_overload.name, False)"})])
+
+# ------------------------------------------------------------------ the C++ side
+CASES = {'caseCount': 'arr[Int,Int]', 'caseTarget': 'arr[Int,Val:str]'}
+contract('MatlabWrapper.mex_function', returns='str',
+         ghost=dict(GHOST, **CASES),
+         requires=['c05_inv(self)', 'forall(lambda k: caseCount[k] == 0)'],
+         modifies=['ghost:caseCount', 'ghost:caseTarget:arr[Int,Val:str]'],
+         ensures=['forall(0, self.wrapper_id, lambda k: caseCount[k] == 1 and caseTarget[k] == c05_target(self.wrapper_map, k))',
+                  'forall(lambda k: implies(k < 0 or k >= self.wrapper_id, caseCount[k] == 0))'],
+         loops={0: {'inv': ['forall(0, _i, lambda k: caseCount[k] == 1 and caseTarget[k] == c05_target(self.wrapper_map, k))',
+                            'forall(lambda k: implies(k < 0 or k >= _i, caseCount[k] == 0))',
+                            '(next_case is None) == (not c05_upcast_at(self.wrapper_map, _i))',
+                            "implies(next_case is not None, next_case == self.wrapper_map[_i][1].name + '_upcastFromVoid_' + int_str(_i))"],
+                    'modifies': ['ghost:caseCount', 'ghost:caseTarget'],
+                    'types': {'next_case': 'none|str'}}},
+         holes=[dict(match=r'case \{\}:', key='0', count='caseCount', set={'caseTarget': 'hole:1'})])
+
+DEFS = {'defCount': 'arr[Int,Int]', 'upCount': 'arr[Int,Int]'}
+contract('MatlabWrapper.generate_collector_function', params={'func_id': 'int'}, returns='str',
+         ghost=DEFS,
+         modifies=['self.global_function_id', 'ghost:defCount'],
+         ensures=['defCount == old(defCount).set(func_id, old(defCount)[func_id] + (1 if func_id in self.wrapper_map else 0))',
+                  "implies(func_id not in self.wrapper_map, result == '')"],
+         assumed=True,
+         note='C05 uses: one routine, named wrapper_map[func_id][3], is emitted iff func_id is in the map; '
+              'its text is a function of that entry only (structural check c05.struct). Verified clauses: contracts/c06.py')
+
+contract('MatlabWrapper.wrap_collector_function_upcast_from_void',
+         params={'class_name': 'str', 'func_id': 'int', 'cpp_name': 'str'}, returns='str', ghost=DEFS,
+         modifies=['ghost:upCount'],
+         ensures=['upCount == old(upCount).set(func_id, old(upCount)[func_id] + 1)'],
+         holes=[dict(match=r'\{class_name\}_upcastFromVoid_\{id\}\(int nargout', key='id', count='upCount')])
+
+contract('MatlabWrapper.generate_preamble', returns='tuple[str,str,str,str,str]', assumed=True,
+         note='type-only here; its clauses are C10')
+contract('InstantiatedClass.to_cpp', returns='str', assumed=True, note='type-only here; exact spelling: contracts/names.py')
+
+contract('MatlabWrapper.generate_wrapper', params={'namespace': 'ref:Namespace'}, returns='none',
+         ghost=dict(GHOST, **dict(CASES, **DEFS)),
+         requires=['c05_inv(self)', 'forall(lambda k: caseCount[k] == 0 and defCount[k] == 0 and upCount[k] == 0)'],
+         modifies=['self.global_function_id', 'list(self.content)', 'ghost:defCount', 'ghost:upCount',
+                   'ghost:caseCount', 'ghost:caseTarget:arr[Int,Val:str]'],
+         ensures=['forall(0, self.wrapper_id, lambda k: defCount[k] == (1 if k in self.wrapper_map else 0))',
+                  'forall(0, self.wrapper_id, lambda k: upCount[k] == (1 if c05_upcast_at(self.wrapper_map, k) else 0))',
+                  'forall(lambda k: implies(k < 0 or k >= self.wrapper_id, defCount[k] == 0 and upCount[k] == 0))',
+                  'forall(0, self.wrapper_id, lambda k: caseCount[k] == 1 and caseTarget[k] == c05_target(self.wrapper_map, k))'],
+         loops={0: {'inv': ['forall(0, _i, lambda k: defCount[k] == (1 if k in self.wrapper_map else 0))',
+                            'forall(0, _i, lambda k: upCount[k] == (1 if c05_upcast_at(self.wrapper_map, k) else 0))',
+                            'forall(lambda k: implies(k < 0 or k >= _i, defCount[k] == 0 and upCount[k] == 0))',
+                            'set_next_case == (_i >= 1 and (_i - 1) not in self.wrapper_map and _i in self.wrapper_map)',
+                            'forall(lambda k: caseCount[k] == 0)'],
+                    'modifies': ['self.global_function_id', 'ghost:defCount', 'ghost:upCount']}})
